@@ -13,8 +13,9 @@ DRIVER = 'DeepModel/Driver/C17.lean'
 BUDGET = {'quick': 1500, 'thorough': 15000}
 RULE = ('0-4 metric definitions (types COUNTER / GAUGE / HISTOGRAM / SUMMARY in any letter case, plus unknown type '
         'names in a separate stream; 0-3 labels: static str / int / bool / None, evaluated, failing, repeated keys; '
-        'expression absent / empty / int / float / bool / numeric text / non-numeric / failing / naming host globals and '
-        'agent-only names; namespace absent / empty / given; help, unit absent or given) x 0-3 recording processors, '
+        'expression absent / empty / int / float / bool / numeric text / non-numeric / failing / an int too large for a '
+        'float (OverflowError) / objects whose __float__ raises, returns a non-float or converts / naming host globals '
+        'and agent-only names; namespace absent / empty / given; help, unit absent or given) x 0-3 recording processors, '
         'each failing on a chosen set of attempts, x 1-4 hits with fire_count / fire_period and a per-hit condition '
         '(true / false / raising) through the real TriggerHandler.trace_call on frame-like mocks or REAL frames. '
         'Non-trivial: at least 2 calls expected, or no processor with a permitted hit, or a failing processor beside a '
@@ -24,19 +25,22 @@ TRUSTED = ['Python float / str on live values is the reference for values and la
            'text without exponent']
 ASSUMPTIONS = ['processor failures are Exception subclasses (a plugin raising a BaseException subclass is outside '
                'the statement)', 'metric expression values are ints, short decimals, bools, text, None or failing',
-               '__str__ / __float__ of host values have no side effects and do not raise']
+               '__str__ of host values does not raise; __float__ may raise any Exception (then the value is 1)']
 
 TYPES = ['COUNTER', 'GAUGE', 'HISTOGRAM', 'SUMMARY', 'COUNTER', 'GAUGE', 'counter', 'Gauge', 'hIsToGrAm', 'summary']
 BAD_TYPES = ['TIMER', '', 'METER', 'clear', 'name', 'COUNTERS', ' counter', 'UNSPECIFIED']
 LOCALS = [['n', 7], ['neg', -3], ['z', 0], ['f', 2.5], ['small', 0.0001], ['t', True], ['fl', False], ['s', 'text'],
           ['num', ' 12 '], ['dec', '3.50'], ['und', '1_000.25'], ['dot', '.5'], ['badnum', '1.2.3'], ['e', ''],
           ['nothing', None], ['lst', [1, 2]], ['o', {'obj': {'name': 'bob', 'w': 1.5}}], ['big', 123456789012],
-          ['negz', '-0'], ['plus', '+4']]
+          ['negz', '-0'], ['plus', '+4'], ['huge', 10 ** 400], ['nhuge', -(10 ** 400)],
+          ['fl_raise', {'floaty': 'raise'}], ['fl_over', {'floaty': 'overflow'}], ['fl_text', {'floaty': 'text'}],
+          ['fl_ok', {'floaty': 2.5}]]
 GLOBALS = {'GNUM': 42, 'GSTR': 'glob', 'GF': 0.125, 'uuid': 'host-uuid'}
 VALUE_EXPRS = [None, None, '', 'n', 'neg', 'z', 'f', 'small', 't', 'fl', 's', 'num', 'dec', 'und', 'dot', 'badnum', 'e',
                'nothing', 'lst', 'o.w', 'big', 'negz', 'plus', 'n + 1', 'n * f', 'len(lst)', 'GNUM', 'GF', 'GNUM + n',
                'nope', 'n / 0', "boom('HostInterrupt', '5')", 'time_ns()', 'FrameType', 'twice(n)', 'o', 'n > 3',
-               "boom('KeyError', 1)", 'uuid']
+               "boom('KeyError', 1)", 'uuid', 'huge', 'nhuge', 'huge * 2', 'fl_raise', 'fl_over', 'fl_text', 'fl_ok',
+               'float(huge)', '10 ** 400', 'huge', 'fl_raise']
 LABEL_EXPRS = ['n', 's', 'f', 'o.name', 'GSTR', 'uuid', 'nope', 'n / 0', 'lst', 'nothing', 't', "boom('SystemExit', 2)",
                'FrameType', 'e', "d['x']" if False else 'len(s)']
 STATICS = ['x', 'static value', '', 5, True, None, 'ünï', 1.5]
